@@ -866,6 +866,11 @@ impl ZmtpEngine {
   pub fn verif_last_activity(&self) -> Instant {
     self.last_activity_time
   }
+  /// Re-base the activity timestamp onto the harness's model clock (the engine stamps
+  /// activity with `Instant::now()` itself while `on_tick` takes `now` as a parameter).
+  pub fn verif_set_last_activity(&mut self, t: Instant) {
+    self.last_activity_time = t;
+  }
 }
 
 // --- Module-level helpers ---
